@@ -251,7 +251,7 @@ func timeFormatSpec(c *ctx, name, pkg, encName, decName string, encF func(time.T
 			}
 		}
 	}
-	total := r.N(20000, 400000)
+	total := r.N(50000, 400000)
 	const shards = 4
 	s.nShards = shards
 	s.bulk = func(c *ctx, shard int, emit func(time.Time)) {
@@ -395,7 +395,7 @@ func unixSpec(c *ctx, pkg, encName, decName string, encF func(time.Time) string,
 			}
 		}
 	}
-	total := r.N(20000, 400000)
+	total := r.N(50000, 400000)
 	const shards = 4
 	s.nShards = shards
 	loA, hiA := unixYear1*perSec, unixYear9999*perSec
@@ -403,7 +403,8 @@ func unixSpec(c *ctx, pkg, encName, decName string, encF func(time.Time) string,
 	s.bulk = func(c *ctx, shard int, emit func(time.Time)) {
 		rng := r.Rand(name, "bulk", strconv.Itoa(shard))
 		lo, hi := shardRange(total, shard, shards)
-		span := uint64(maxCnt) - uint64(math.MinInt64) // unsigned width of [MinInt64, maxCnt]
+		const minU = uint64(1) << 63  // bit pattern of MinInt64
+		span := uint64(maxCnt) - minU // unsigned width of [MinInt64, maxCnt]
 		half := uint64(total/2 + 1)
 		for i := lo; i < hi; i++ {
 			var n int64
@@ -411,7 +412,7 @@ func unixSpec(c *ctx, pkg, encName, decName string, encF func(time.Time) string,
 			case !useA:
 				// one stratum of the whole int64 range per case
 				stride := span / uint64(total)
-				n = int64(uint64(math.MinInt64) + uint64(i)*stride + rng.Uint64()%stride)
+				n = int64(minU + uint64(i)*stride + rng.Uint64()%stride)
 			case i%2 == 0:
 				// stream A: one stratum of the years 0001-9999 per case
 				stride := uint64(hiA-loA) / half
@@ -419,7 +420,7 @@ func unixSpec(c *ctx, pkg, encName, decName string, encF func(time.Time) string,
 			default:
 				// stream B: one stratum of the whole count range per case, outside stream A's region
 				stride := span / half
-				n = int64(uint64(math.MinInt64) + uint64(i/2)*stride + rng.Uint64()%stride)
+				n = int64(minU + uint64(i/2)*stride + rng.Uint64()%stride)
 				if n >= loA && n <= hiA {
 					continue
 				}
